@@ -1,4 +1,4 @@
-// want: [flat flat flat flat flat] [6 12953 8476 10667 3]
+// want: [flat flat flat flat flat flat flat] [6 12953 8476 10667 3 20001 20001]
 package main
 
 import (
@@ -138,6 +138,33 @@ func innerNative(p *probe) Iter[int] {
 	return nil
 }
 
+// a validating loop: no yield, but a generator return inside (never taken here), for and range form
+func validateFor(p *probe, xs []int) Iter[int] {
+	sum := 0
+	for i := 0; i < len(xs); i++ {
+		p.at(i)
+		if xs[i] < 0 {
+			return nil
+		}
+		sum++
+	}
+	Yield(sum)
+	return nil
+}
+
+func validateRange(p *probe, xs []int) Iter[int] {
+	sum := 0
+	for i, x := range xs {
+		p.at(i)
+		if x < 0 {
+			return nil
+		}
+		sum++
+	}
+	Yield(sum)
+	return nil
+}
+
 func drain(it Iter[int]) (last int, n int) {
 	for v := range it {
 		last = v
@@ -151,7 +178,7 @@ func main() {
 	for i := range xs {
 		xs[i] = i
 	}
-	ps := []*probe{{}, {}, {}, {}, {}}
+	ps := []*probe{{}, {}, {}, {}, {}, {}, {}}
 	var vals []int
 	v, _ := drain(nestedIf(ps[0]))
 	vals = append(vals, v)
@@ -163,5 +190,9 @@ func main() {
 	vals = append(vals, v)
 	_, n := drain(innerNative(ps[4]))
 	vals = append(vals, n)
+	v, _ = drain(validateFor(ps[5], xs))
+	vals = append(vals, v)
+	v, _ = drain(validateRange(ps[6], xs))
+	vals = append(vals, v)
 	fmt.Println(ps, vals)
 }
